@@ -14,7 +14,9 @@
    write(init) · … · write(status)* · write(final) · compaction · flock · unlinkat(sock) [listener close] · exit *)
 EXTENDS Integers, Sequences, FiniteSets, TLC
 
-CONSTANTS Agents, NSteps, AllowCrash, FixStatus, ExclusiveBind
+CONSTANTS Agents, NSteps, AllowCrash, FixStatus, ExclusiveBind,
+          BindFailUnlinks   \* TRUE: the Shutdown of a start whose bind was refused removes the socket file (the seeded defect
+                            \* C16-e: the file belongs to the active run; a third start then finds nobody listening)
 
 VARIABLES pc,        \* per agent
           listener,  \* agent whose listening socket is bound to the current socket inode, or "none"
@@ -92,7 +94,9 @@ Shutdown(a) == /\ pc[a] \in {"shutdown", "bindfail"}
                /\ IF bound[a] \/ pc[a] = "shutdown"
                     THEN /\ sockFile' = "none"
                          /\ listener' = IF listener = a THEN "none" ELSE listener
-                    ELSE UNCHANGED <<sockFile, listener, lock, windowRace>>
+                    ELSE IF BindFailUnlinks
+                    THEN sockFile' = "none" /\ UNCHANGED listener
+                    ELSE UNCHANGED <<sockFile, listener>>
                /\ bound' = [bound EXCEPT ![a] = FALSE]
                /\ pc' = [pc EXCEPT ![a] = "exit"]
                /\ UNCHANGED <<hist, order, stepsDone, execd, final, lock, windowRace, overlap>>
